@@ -430,7 +430,11 @@ def run_ao(sc, sched, max_steps=200000, horizon_s=None, before_run=None):
     ao = seams.mods['activeobject']
     run.handlers = []
     for oi, od in enumerate(sc['objects']):
-      o = ao.ActiveObject(name=od['name'], instrumented=od.get('instrumented', True))
+      cls_ = ao.ActiveObject
+      if od.get('class_cap'):
+        # a subclass that declares its own QUEUE_SIZE, as classes of queued charts may
+        cls_ = type('SizedActiveObject', (ao.ActiveObject,), {'QUEUE_SIZE': od['class_cap']})
+      o = cls_(name=od['name'], instrumented=od.get('instrumented', True))
       o.locking_deque.deque._watch = True
       if od.get('live_spy') or od.get('live_trace'):
         run.live_spy.setdefault(oi, [])
